@@ -81,3 +81,11 @@ int  xdrv_check_B_scaling(const xdrv *D, trans_t trans, const ldc *B0, char *why
 /* 1-norm condition number of a sparse square matrix via long double dense inverse; INFINITY when singular */
 ld dense_cond1(const vf_mat *F, ld *norm1_out, ld *inv_norm1_out, ld *norminf_out, ld *inv_norminf_out);
 #endif
+
+#ifndef SINGRET_H
+#define SINGRET_H
+/* oracle for a return info = i in [1, n] (C04 clause a): stored candidates of the reported column exactly zero, earlier pivots
+   nonzero, leading-block factor identity; F is the matrix that was factored */
+void judge_singular(vf_case *c, const vf_api *P, const vf_mat *F, const int *perm_r, const int *perm_c,
+                    const SuperMatrix *L, const SuperMatrix *U, int_t info, const char *route);
+#endif
